@@ -54,7 +54,7 @@ FILES = {
 # there: dropped copies, np.array -> np.asarray, np.zeros -> np.empty, deleted statements.  The metric-law check C07
 # and the checks of other properties anchored in the same file are left out of the screening (cost), i.e. the
 # screening understates detection.
-C19_OPS = ("drop-copy", "drop-deepcopy", "name:array", "name:zeros", "delete", "augassign")
+C19_OPS = ("drop-copy", "drop-deepcopy", "name:array", "name:zeros", "delete", "augassign", "bool")
 C19_FILES = ("persim/images.py", "persim/visuals.py", "persim/bottleneck.py", "persim/wasserstein.py", "persim/heat.py",
              "persim/sliced_wasserstein.py", "persim/persistent_entropy.py", "persim/landscapes/exact.py",
              "persim/landscapes/approximate.py", "persim/gromov_hausdorff.py")
